@@ -93,12 +93,12 @@ class Line(GeoBody):
         return hash(
             (
                 "Line",
-                round(dv[0], SIG_FIGURES),
-                round(dv[1], SIG_FIGURES),
-                round(dv[2], SIG_FIGURES),
-                round(moment[0], SIG_FIGURES),
-                round(moment[1], SIG_FIGURES),
-                round(moment[2], SIG_FIGURES),
+                round(dv[0], get_sig_figures()),
+                round(dv[1], get_sig_figures()),
+                round(dv[2], get_sig_figures()),
+                round(moment[0], get_sig_figures()),
+                round(moment[1], get_sig_figures()),
+                round(moment[2], get_sig_figures()),
             )
         )
 
